@@ -523,3 +523,181 @@ func isMakeCall(f *fn, e ast.Expr) bool {
 	b, ok := f.Info.Uses[id].(*types.Builtin)
 	return ok && b.Name() == "make"
 }
+
+func init() {
+	register(&core.Rule{ID: "C14.12", Prop: "C14", MinSites: 3, Applies: func(c core.Config) bool { return c.HasTag("gc_opt") },
+		Desc: "the matrix forgets what it removes and never reuses a taken cell: every return of delConn has cleared a table cell or dropped a row (table[…]… = nil), and where an entry was relocated a second clear follows the relocation (the cell it was moved from); addConn, on every path that stores the connection, increments cm.column afterwards, and on the edge where the column reached its maximum increments cm.row and resets cm.column to 0 – a cell that is left set is visited by iterate as a dead connection, a cursor that stays put hands the same cell to the next connection",
+		Run:  runC14_12})
+}
+
+func runC14_12(c *core.Ctx) {
+	a := regAnchors(c)
+	if a == nil || !a.gc {
+		return
+	}
+	isTableClear := func(f *fn, n ast.Node) bool {
+		as, ok := n.(*ast.AssignStmt)
+		if !ok || len(as.Lhs) != len(as.Rhs) {
+			return false
+		}
+		for k, l := range as.Lhs {
+			if _, isIdx := ast.Unparen(l).(*ast.IndexExpr); isIdx && a.storeInto(f, l) == a.table && flow.IsNil(f.Info, as.Rhs[k]) {
+				return true
+			}
+		}
+		return false
+	}
+	isConnStore := func(f *fn, n ast.Node) bool { // table[..][..] = <a conn>
+		as, ok := n.(*ast.AssignStmt)
+		if !ok || len(as.Lhs) != len(as.Rhs) {
+			return false
+		}
+		for k, l := range as.Lhs {
+			ie, isIdx := ast.Unparen(l).(*ast.IndexExpr)
+			if !isIdx || a.storeInto(f, l) != a.table || flow.IsNil(f.Info, as.Rhs[k]) {
+				continue
+			}
+			if _, twoLevel := seeThrough(f, ie.X).(*ast.IndexExpr); twoLevel {
+				return true
+			}
+		}
+		return false
+	}
+	// ---- delConn ----
+	{
+		f := a.del
+		const (
+			sNone = iota
+			sCleared
+			sMoved        // relocated, the source cell not yet cleared
+			sMovedCleared // relocated and cleared afterwards
+		)
+		au := &flow.Auto{Start: sNone}
+		au.Node = func(b *flow.Block, i int, n ast.Node, s int) int {
+			switch {
+			case isTableClear(f, n):
+				if s == sMoved {
+					return sMovedCleared
+				}
+				if s == sNone {
+					return sCleared
+				}
+			case isConnStore(f, n):
+				return sMoved
+			}
+			return s
+		}
+		sol := f.Graph().Run(au)
+		k := 0
+		sol.AtExit(func(b *flow.Block, _ uint64) {
+			k++
+			bad := ""
+			for _, s := range flow.States(sol.Out(b)) {
+				switch s {
+				case sNone:
+					bad = "without having cleared the removed connection's cell (or dropped its row)"
+				case sMoved:
+					bad = "after relocating an entry without clearing the cell it was moved from"
+				}
+			}
+			c.Check(bad == "", f.Name, "cells cleared before return #"+itoa(k), b.Return.Pos(), "removed cell cleared; moved-from cell cleared after a relocation",
+				"delConn can return "+bad+": the table keeps a pointer to a connection that is gone (or holds one connection twice), so iterate visits a dead connection – closeConns closes it again – and the entry is never garbage-collected")
+		})
+	}
+	// ---- addConn ----
+	{
+		f := a.add
+		colMax, _ := c.P.Object("internal/gfd", "ConnMatrixColumnMax").(*types.Const)
+		if !c.Need("ConnMatrixColumnMax", colMax) {
+			return
+		}
+		const (
+			fStored = 1 << iota
+			fColInc
+			fWrap // on the edge column == ColumnMax
+			fRowInc
+			fColZero
+		)
+		// path-sensitive: the automaton's state is the set of facts of one path (5 bits, 32 states)
+		au := &flow.Auto{Start: 0}
+		nodeFn := func(n ast.Node, in uint64) uint64 {
+			if isConnStore(f, n) {
+				in |= fStored
+			}
+			switch y := n.(type) {
+			case *ast.IncDecStmt:
+				if y.Tok == token.INC && flow.FieldOf(f.Info, y.X) == a.colF && in&fStored != 0 {
+					in |= fColInc
+				}
+				if y.Tok == token.INC && flow.FieldOf(f.Info, y.X) == a.rowF {
+					in |= fRowInc
+				}
+			case *ast.AssignStmt:
+				for k, l := range y.Lhs {
+					if len(y.Rhs) != len(y.Lhs) {
+						continue
+					}
+					cv := flow.ConstOf(f.Info, y.Rhs[k])
+					switch flow.FieldOf(f.Info, l) {
+					case a.colF:
+						if y.Tok == token.ADD_ASSIGN && cv != nil && cv.ExactString() == "1" && in&fStored != 0 {
+							in |= fColInc
+						}
+						if y.Tok == token.ASSIGN && cv != nil && constant.Sign(cv) == 0 {
+							in |= fColZero
+						}
+					case a.rowF:
+						if y.Tok == token.ADD_ASSIGN && cv != nil && cv.ExactString() == "1" {
+							in |= fRowInc
+						}
+					}
+				}
+			}
+			return in
+		}
+		edgeFn := func(e *flow.Edge, in uint64) uint64 {
+			if l, r, eq, ok := flow.Equality(e); ok && eq {
+				if (flow.FieldOf(f.Info, l) == a.colF && flow.ObjOf(f.Info, r) == types.Object(colMax)) || (flow.FieldOf(f.Info, r) == a.colF && flow.ObjOf(f.Info, l) == types.Object(colMax)) {
+					in |= fWrap
+				}
+			}
+			if x, y, op, ok := flow.Cmp(e.Cond); ok && e.Cond != nil && e.Tag == nil && flow.FieldOf(f.Info, x) == a.colF && flow.ObjOf(f.Info, y) == types.Object(colMax) && ((op == token.GEQ && e.Sense) || (op == token.LSS && !e.Sense)) {
+				in |= fWrap
+			}
+			return in
+		}
+		au.Node = func(b *flow.Block, i int, n ast.Node, st int) int { return int(nodeFn(n, uint64(st))) }
+		au.Edge = func(e *flow.Edge, st int) int { return int(edgeFn(e, uint64(st))) }
+		sol := f.Graph().Run(au)
+		// the store must exist at all
+		stores := false
+		ast.Inspect(f.Decl.Body, func(n ast.Node) bool {
+			if st, ok := n.(ast.Stmt); ok && isConnStore(f, st) {
+				stores = true
+			}
+			return true
+		})
+		k := 0
+		sol.AtExit(func(b *flow.Block, _ uint64) {
+			k++
+			good := true
+			for _, st := range flow.States(sol.Out(b)) {
+				facts := uint64(st)
+				if facts&fStored == 0 {
+					continue
+				}
+				if facts&fColInc == 0 {
+					good = false
+				}
+				if facts&fWrap != 0 && (facts&fRowInc == 0 || facts&fColZero == 0) {
+					good = false
+				}
+			}
+			c.Check(good, f.Name, "cursor advanced before return #"+itoa(k), b.Return.Pos(), "column incremented after the store; row incremented and column reset at the end of a row",
+				"addConn can return after storing the connection without moving the insertion cursor on (cm.column++, and cm.row++ / cm.column = 0 at the end of a row): the next connection is stored into the same cell – the earlier one disappears from the table while the count still includes it – or beyond the row")
+		})
+		if !stores {
+			c.Violate(f.Name, "store of the connection", f.Decl.Pos(), "addConn stores no connection into the table")
+		}
+	}
+}
